@@ -48,6 +48,25 @@ def one(name):
             l.split("clause=")[1].split(" ")[0]
             for l in p.stdout.splitlines() if "clause=" in l))[:8]
         out["wall_s"] = round(time.time() - t0, 1)
+        if not out["caught"]:
+            # a break that arrives through a dependency may be outside what
+            # the property's own check can see: try the checks that were
+            # recorded as catching it when the seed was confirmed
+            others = sorted(set(k.split("/")[0] for k, v in
+                                meta.get("checks", {}).items()
+                                if v.get("violation")) - {prop})
+            for c in others:
+                p = sh([os.path.join(VERIF, "check"), c, "--noevidence"],
+                       cwd=VERIF, env=dict(os.environ, VERIF_REPO=scratch,
+                                           VERIF_SEED="0"))
+                if ("VIOLATION property=%s" % c) in p.stdout:
+                    out["caught"] = True
+                    out["caught_by_other_check"] = c
+                    out["clauses"] = sorted(set(
+                        l.split("clause=")[1].split(" ")[0]
+                        for l in p.stdout.splitlines()
+                        if "clause=" in l))[:8]
+                    break
     finally:
         sh(["git", "-C", "/repo", "worktree", "remove", "--force", scratch])
     return out
@@ -67,6 +86,8 @@ def main():
         res = list(ex.map(one, names))
     for r in res:
         print(r["name"], "caught" if r.get("caught") else "MISSED",
+              ("by " + r["caught_by_other_check"])
+              if r.get("caught_by_other_check") else "",
               r.get("clauses"), r.get("error", ""))
     head = sh(["git", "-C", "/repo", "rev-parse", "HEAD"]).stdout.strip()
     if not a.only:
